@@ -114,6 +114,107 @@ class FieldSubject:
         return (a - b).is_zero()
 
 
+def check_inv_paths(S: "FieldSubject"):
+    """quadratic extension classes: walk inv() (polynomial extended Euclid with its rounded division) on a symbolic element,
+    path by path — the degree tests on the coefficients are the path conditions — and require on every path
+    a = 0 ⇒ inv = 0 (inv0 convention), else a·inv(a) = 1 in F_p[X]/(m).  A path whose conditions force the norm form of a
+    non-zero element to vanish is infeasible because m is irreducible (checked).  -> list of (key, ok, detail, where)"""
+    from .ecalg import alg_paths, PolyCond
+    from .nt import ExtField, inv_mod
+    out = []
+    it0 = Interp(S.world, native_fields=False)
+    m = it0.find_method(S.cls, "inv")
+    if m is None or S.kind != "FQP" or S.d != 2:
+        return out
+    p = S.p
+
+    def inv_rat(it, f, args, kw, node):
+        a, n = args
+        if n != p:
+            raise AnalysisError(f"{it.where(node)}: prime_field_inv called with modulus {n!r}, expected the field modulus")
+        if isinstance(a, bool):
+            a = int(a)
+        if isinstance(a, int):
+            return inv_mod(a, p)
+        if not isinstance(a, FieldSym):
+            raise AnalysisError(f"{it.where(node)}: prime_field_inv of {a!r}")
+        z = it.alg.is_zero(a.r)
+        if z is None:
+            z = it.truth(PolyCond(a.r, True), node)
+        if z:
+            return 0
+        return FieldSym(Rat(Poly.const(1)) / a.r, a.cls, True)
+
+    def run(it):
+        a, _av = S.element(it, "a")
+        return a, it.call_func(m, [a], {})
+    try:
+        paths = alg_paths(S.world, run, AlgState(), native_fields=False, summaries={UTILS_INV: inv_rat})
+    except AnalysisError as ex:
+        return [("inv(): a·a.inv() = 1 on every path (degree 2)", False, f"not analysable: {ex}", m.where)]
+    c0, c1 = S.mc
+    a0, a1 = Poly.var("a0"), Poly.var("a1")
+    norm = a0 * a0 - Poly.const(c1) * a0 * a1 + Poly.const(c0) * a1 * a1
+    irreducible = ExtField(p, S.mc).is_irreducible()
+    bad = []
+    nfeasible = 0
+    for pth in paths:
+        pl = " ".join(pth.branch_lines()) or "(straight)"
+        if pth.outcome != "return":
+            bad.append(f"path {pl}: raises {pth.value.clsname()} at {pth.value.where}")
+            continue
+        a, r = pth.value
+        if not isinstance(r, Instance) or r.cls is not S.cls:
+            bad.append(f"path {pl}: returns {show(r)[:60]}")
+            continue
+
+        def coefs(inst):
+            cs = []
+            for c in inst.attrs.get("coeffs", ()):
+                if isinstance(c, Instance):
+                    c = c.attrs.get("n")
+                cs.append(pth.alg.norm(c.r if isinstance(c, FieldSym) else Rat(Poly.const(int(c)))))
+            return cs
+        A, R = coefs(a), coefs(r)
+        if len(A) != 2 or len(R) != 2:
+            bad.append(f"path {pl}: result has {len(R)} coefficients")
+            continue
+        a_zero = all(pth.alg.is_zero(x) is True for x in A)
+        if a_zero:
+            nfeasible += 1
+            if not all(pth.alg.is_zero(x) is True for x in R):
+                bad.append(f"path {pl}: inverse of the zero element is not zero (inv0 convention)")
+            continue
+        # infeasible: the path assumes the norm form of a non-zero element to vanish
+        if irreducible and any(_same_up_to_unit(z, norm, p) for z in pth.alg.zeros):
+            continue
+        nfeasible += 1
+        prod = [Rat(Poly.const(0)) for _ in range(3)]
+        for i, x in enumerate(A):
+            for j, y in enumerate(R):
+                prod[i + j] = prod[i + j] + x * y
+        top = prod[2]
+        prod[0] = prod[0] - top * Rat(Poly.const(c0))
+        prod[1] = prod[1] - top * Rat(Poly.const(c1))
+        ok = pth.alg.is_zero(prod[0] - Rat(Poly.const(1))) is True and pth.alg.is_zero(prod[1]) is True
+        if not ok:
+            bad.append(f"path {pl}: a·inv(a) ≠ 1 (kept path conditions: {[repr(z)[:60] for z in pth.alg.zeros]})")
+    out.append(("inv(): polynomial Euclid, a·a.inv() = 1 on every feasible path and inv(0) = 0 (degree 2)", not bad and nfeasible >= 3 and irreducible,
+                "; ".join(bad[:2]) or f"{len(paths)} paths, {nfeasible} feasible", m.where))
+    return out
+
+
+def _same_up_to_unit(z: Poly, n: Poly, p):
+    """z = k·n modulo p for a non-zero constant k"""
+    zt, nt = Poly(z.t, p), Poly(n.t, p)
+    if set(zt.t) != set(nt.t) or not nt.t:
+        return False
+    m0 = next(iter(nt.t))
+    from .nt import inv_mod
+    k = zt.t[m0] * inv_mod(nt.t[m0], p) % p
+    return k != 0 and all((zt.t[mm] - k * nt.t[mm]) % p == 0 for mm in nt.t)
+
+
 def tower_scalar(t: TowerSym, k: Poly):
     return TowerSym([c * k for c in t.c], t.mc, t.p)
 
@@ -314,6 +415,16 @@ def run_fqp(S: FieldSubject):
             out.append(("inv() closed form: a·a.inv() = 1", ok and red and okcls, det, m.where))
         except Raised as ex:
             out.append(("inv() closed form: a·a.inv() = 1", False, f"raises {ex.exc.clsname()}", m.where))
+    out.extend(check_inv_paths(S))
+    out.extend(fqp_eq_obligations(S))
+    return out
+
+
+def fqp_eq_obligations(S: FieldSubject):
+    """equality of extension-field elements (used by the curve code for dispatch): exact on elements; with an int refused or exact"""
+    out = []
+    it0 = Interp(S.world, native_fields=False)
+    p = S.p
     # equality
     m = it0.find_method(S.cls, "__eq__")
 
@@ -331,4 +442,32 @@ def run_fqp(S: FieldSubject):
         if pth.value is False and all(z is True for z in zs):
             okeq = False
     out.append(("__eq__ ⇔ all coefficients equal", okeq, f"{len(paths)} paths", m.where))
+    # equality with an integer k: refused (TypeError), or exact — equal to the embedded constant (k mod p, 0, …, 0)
+
+    def run_eq_int(it):
+        a, av = S.element(it, "a")
+        r = it.call_func(m, [a, S.var("k")], {})
+        return r if isinstance(r, bool) else it.truth(r)
+    try:
+        ipaths = alg_paths(S.world, run_eq_int, AlgState(), native_fields=False, summaries=S.summ)
+    except AnalysisError as ex:
+        ipaths = None
+        out.append(("__eq__(int) refused or exact", False, f"not analysable: {ex}", m.where))
+    if ipaths is not None:
+        okint, why = True, ""
+        if all(pp.outcome == "raise" for pp in ipaths):
+            okint = all(pp.value.clsname() == "builtins.TypeError" for pp in ipaths)
+            why = "refused with " + ", ".join(sorted({pp.value.clsname() for pp in ipaths}))
+        else:
+            for pp in ipaths:
+                if pp.outcome != "return":
+                    okint, why = False, f"raises {pp.value.clsname()} on some path only"
+                    continue
+                zs = [pp.alg.is_zero(Rat(Poly.var("a0", p) - Poly.var("k", p)))] + \
+                     [pp.alg.is_zero(Rat(Poly.var(f"a{i}", p))) for i in range(1, S.d)]
+                if pp.value is True and not all(z is True for z in zs):
+                    okint, why = False, "returns True although a higher coefficient may be non-zero / a0 may differ from k"
+                if pp.value is False and all(z is True for z in zs):
+                    okint, why = False, "returns False for the embedded constant"
+        out.append(("__eq__(int) refused (TypeError) or ⇔ element is the embedded constant", okint, why or f"{len(ipaths)} paths", m.where))
     return out
